@@ -34,6 +34,10 @@ func (d *Dict) TypeFunc(app uint32) refcodec.TypeFunc {
 	return func(code, vendor uint32, hasV bool) refcodec.Kind {
 		if !hasV {
 			vendor = 0
+		} else if vendor == refdict.AnyVendor {
+			// on the wire 0xffffffff is a vendor id like any other (nobody's); only in lookups
+			// is it the wildcard
+			return refcodec.Unknown
 		}
 		def, ok := d.Ix.FindAVP(app, code, vendor)
 		if !ok {
@@ -372,9 +376,9 @@ func (d *Dict) unknown(r *rand.Rand, app uint32, o *Opts) *refcodec.Node {
 			n.Flags = uint8(r.Uint32()) & 0x60
 			if def.Vendor == 0 || r.IntN(2) == 0 {
 				n.Flags |= refcodec.AVPFlagV
-				n.Vendor = []uint32{def.Vendor + 1, 99999, 9, 10415, 193}[r.IntN(5)]
+				n.Vendor = []uint32{def.Vendor + 1, 99999, 9, 10415, 193, refdict.AnyVendor}[r.IntN(6)]
 			}
-			if _, ok := d.Ix.FindAVP(app, n.Code, n.Vendor); ok || n.Vendor == refdict.AnyVendor {
+			if _, ok := d.Ix.FindAVP(app, n.Code, n.Vendor); ok && n.Vendor != refdict.AnyVendor {
 				continue
 			}
 			n.B = randBytes(r, strLen(r, o.BigStrings))
